@@ -199,6 +199,19 @@ def gen_cases(ctx):
     for g in G.classic_corpus():
         for kind in "ONUGE":
             add("corpus", kind, g)
+    # ---- grammars on which Pager's gc REALLY removes states (rare among random grammars): only there does
+    #      the renumbering of the surviving states run, so only there can a pop-order leak into the state
+    #      numbering show up across processes (mirror: C15_gc_order_insensitive / C15_gc_renumbering_monotone) ----
+    for fam, texts in (("gc_corpus", G.gc_corpus()), ("gc_chain_corpus", G.gc_chain_corpus())):
+        k = min(len(texts), ctx.n(25, 60))
+        step = max(1, len(texts) // max(k, 1))
+        for src in texts[::step][:k]:
+            try:
+                g = G.from_text(src)
+            except Exception:
+                ctx.count("gc_corpus_unparsed")
+                continue
+            add(fam, "ON"[len(cases) % 2], g, n_inputs=3)
     # ---- the documented witness grammars ----
     t, r = (lambda x: ('t', x)), (lambda x: ('r', x))
     base = G.Gram(["a", "b"], [("S", [[t("a"), r("S")], [t("b")]])])
